@@ -490,6 +490,75 @@ def install_one_table_provider(table: Dict[str, Optional[str]]) -> None:
     inject.clear_and_configure(configure)
 
 
+class _ResolverOnlyProvider(TokenLogicProvider):
+    """a user-written provider around ONE package resolver (whatever format the message has)"""
+
+    def __init__(self, resolver):
+        self.resolver = resolver
+
+    def get_rc_evaluator(self, edifact_format=None, format_version=None):
+        return _TLP.rc
+
+    def get_fc_evaluator(self, edifact_format=None, format_version=None):
+        return _TLP.fc
+
+    def get_hints_provider(self, edifact_format=None, format_version=None):
+        return _TLP.hints
+
+    def get_package_resolver(self, edifact_format=None, format_version=None):
+        return self.resolver
+
+
+def install_cer_resolver_without_format() -> None:
+    """the ContentEvaluationResult based package resolver as the factory creates it by default (no format given), behind a user's provider;
+    the package table travels in the evaluatable data (set_cer)"""
+    from ahbicht.content_evaluation.evaluator_factory import create_content_evaluation_result_based_evaluators
+
+    install()
+    provider = _ResolverOnlyProvider(create_content_evaluation_result_based_evaluators()[3])
+
+    def configure(binder):
+        binder.bind(TokenLogicProvider, provider)
+        binder.bind_to_provider(EvaluatableDataProvider, _provide_cer_data)
+
+    inject.clear_and_configure(configure)
+
+
+def install_json_file_resolver(table: Dict[str, Optional[str]], directory: str) -> None:
+    """JsonFilePackageResolver on a mapping-LIST file that also holds entries for another EDIFACT format (same keys, other expressions,
+    a null, an extra key): they are none of this resolver's business"""
+    import json
+    import os
+
+    from ahbicht.content_evaluation.token_logic_provider import SingletonTokenLogicProvider
+    from ahbicht.expressions.package_expansion import JsonFilePackageResolver
+
+    install()
+    entries = [{"edifact_format": str(FORMAT.value), "package_key": k, "package_expression": v} for k, v in table.items()]
+    foreign = "MSCONS"
+    decoys = [{"edifact_format": foreign, "package_key": k, "package_expression": (None if i % 2 else "[499]")} for i, k in enumerate(table)]
+    decoys.append({"edifact_format": foreign, "package_key": "987P", "package_expression": "[498]"})
+    mixed = []
+    for i, e in enumerate(entries):  # interleaved, the foreign entries before AND after the own ones
+        mixed += [decoys[i], e] if i % 2 else [e, decoys[i]]
+    mixed.append(decoys[-1])
+    path = os.path.join(directory, "packages.json")
+    with open(path, "w", encoding="utf-8") as f:
+        json.dump(mixed, f)
+    resolver = JsonFilePackageResolver(FORMAT, VERSION, path)
+    hp = _TLP.hints
+
+    def configure(binder):
+        binder.bind(TokenLogicProvider, _JsonResolverProvider(resolver))
+        binder.bind_to_provider(EvaluatableDataProvider, lambda: EvaluatableData(body={}, edifact_format=FORMAT, edifact_format_version=VERSION))
+
+    inject.clear_and_configure(configure)
+
+
+class _JsonResolverProvider(_ResolverOnlyProvider):
+    pass
+
+
 def install_cer_based() -> None:
     """create_content_evaluation_result_based_evaluators(): the answers travel in the evaluatable data (set_cer, context local)"""
     from ahbicht.content_evaluation.evaluator_factory import create_content_evaluation_result_based_evaluators
